@@ -39,6 +39,15 @@ func (c *Conn) Pending() int {
 	return len(c.rd.buf)
 }
 
+// Drain removes and returns the bytes written by the peer and not yet read.
+func (c *Conn) Drain() []byte {
+	c.rd.mu.Lock()
+	defer c.rd.mu.Unlock()
+	b := c.rd.buf
+	c.rd.buf = nil
+	return b
+}
+
 // Closed reports whether either side closed the link.
 func (c *Conn) Closed() bool {
 	c.rd.mu.Lock()
